@@ -266,7 +266,7 @@ fn reentrant_error(rep: &mut Report) {
             .build(Root::builder().build(LevelFilter::Off))
             .unwrap();
         let hlog = log.clone();
-        let logger = log4rs::Logger::new_with_err_handler(cfg, Box::new(move |e: &anyhow::Error| hlog.lock().unwrap().push(Ev::Handler(format!("{}", e)))));
+        let logger = log4rs::Logger::new_with_err_handler(cfg, Box::new(move |e: &anyhow::Error| hlog.lock().unwrap().push(Ev::Handler(format!("{:#}", e)))));
         *slot.lock().unwrap() = Some(logger.verif_handle());
         let r = catch_panic(|| logger.log(&Record::builder().level(Level::Info).target("t").args(format_args!("first")).build()));
         let evs = log.lock().unwrap().clone();
@@ -278,7 +278,12 @@ fn reentrant_error(rep: &mut Report) {
         Ok((Ok(()), evs)) => {
             let mut handled: Vec<String> = evs.iter().filter_map(|e| match e { Ev::Handler(m) => Some(m.clone()), _ => None }).collect();
             handled.sort();
-            if handled != vec!["fail-G".to_string(), "failing-after-swap".to_string()] {
+            // the wording is free (an error may arrive wrapped in context): each of the two appender
+            // errors must be recognisable in exactly one handed-over error
+            let ok = handled.len() == 2
+                && handled.iter().filter(|m| m.contains("fail-G")).count() == 1
+                && handled.iter().filter(|m| m.contains("failing-after-swap")).count() == 1;
+            if !ok {
                 rep.violation(
                     "reentrant:errors-not-handled-by-the-configuration-that-routed-the-record",
                     format!("{}: the record was fanned out under the old configuration, whose error handler received {:?} instead of both appender errors; events {:?}", case, handled, evs),
